@@ -23,6 +23,21 @@ VENDOR = VERIF / "vendor"
 # ------------------------------------------------------------------ implementation side
 
 
+_GEN = {}
+_GEN_CALLS = [0]
+
+
+def _plugin_generator(mod):
+    """every second call in a worker process re-uses one long-lived generator object of the plug-in (a tool that generates
+    several schemas in a row keeps it); the others get a fresh one"""
+    _GEN_CALLS[0] += 1
+    if _GEN_CALLS[0] % 2 == 0:
+        if mod.__name__ not in _GEN:
+            _GEN[mod.__name__] = mod.Generator()
+        return _GEN[mod.__name__]
+    return mod.Generator()
+
+
 def w_gen_cpp(case):
     """schema text -> generated C++ files, reflection binary, schema dict"""
     import tempfile as _t
@@ -39,7 +54,7 @@ def w_gen_cpp(case):
     sd = fcp.to_dict()
     out = _t.mkdtemp(prefix="fcpcpp_")
     try:
-        files = fcp_cpp.Generator().generate(fcp, {"output": out})
+        files = _plugin_generator(fcp_cpp).generate(fcp, {"output": out})
         gen_files = {os.path.basename(str(f["path"])): str(f["contents"]) for f in files}
     finally:
         shutil.rmtree(out, ignore_errors=True)
@@ -473,6 +488,31 @@ def widths_desc(big=False):
         d.structs.append((name, [("e", 0, ("enum", f"En{m}")), ("t", 1, ("u", 8)), ("e2", 2, ("enum", f"En{m}"))]))
         for v in vals:
             py = {"e": v, "t": 0xA5, "e2": vals[-1]}
+            jobs.append((name, py, gen.to_model(d, ("struct", name), py)))
+    # containers of every common element type, starting on a byte boundary and 3 bits past one: a fast path for one element
+    # type (bytes copied in blocks, say) must agree with the bit-by-bit codec at every alignment
+    import random as _random
+    crng = _random.Random(20240929)
+    d.enums.append(("CE", [("CA", 0), ("CB", 2), ("CC", 5)]))
+    elems = [("u", 8), ("i", 8), ("u", 16), ("u", 1), ("u", 4), ("f32",), ("enum", "CE")]
+    k = 0
+    for el in elems:
+        for cont in (("arr", el, 3), ("dyn", el), ("opt", el), ("arr", ("arr", el, 2), 2), ("opt", ("arr", el, 4)), ("dyn", ("arr", el, 2))):
+            for pad in (0, 3):
+                name = f"CT{k}"
+                k += 1
+                fs = ([("p", 0, ("u", pad))] if pad else []) + [("x", 1, cont), ("q", 2, ("u", 3))]
+                d.structs.append((name, fs))
+                for _ in range(2):
+                    r = gen_cpp_value(crng, d, ("struct", name))
+                    if r:
+                        jobs.append((name, r[0], r[1]))
+    for pad in (0, 3, 7):
+        name = f"CT{k}"
+        k += 1
+        d.structs.append((name, ([("p", 0, ("u", pad))] if pad else []) + [("x", 1, ("str",)), ("q", 2, ("u", 3))]))
+        for txt in ("", "fcp", "\u00b0C \u20ac"):
+            py = dict({"x": txt, "q": 5}, **({"p": (1 << pad) - 1} if pad else {}))
             jobs.append((name, py, gen.to_model(d, ("struct", name), py)))
     return d, jobs
 
